@@ -169,33 +169,7 @@ def run(ctx):
     # ---------------------------------------------------------------- R9
     r9(ctx, prog)
     # ---------------------------------------------------------------- R11
-    ctx.rule("C01-R11", "isolation of the fitted pixels: the cut-out handed "
-             "to the fit is blanked wherever a pixel carries ANOTHER "
-             "island's label (the mask has a `labels != id` / `~own` term) "
-             "-- otherwise a neighbour inside the bounding box is fitted as "
-             "an extra summit of this island and again as its own island")
-    from ..islandmodel import IslandModel
-    im_ = IslandModel(prog)
-    bl = im_.blanking_masks()
-    ctx.floor("C01-R11", len(bl), 1, "NaN-blanking statements in the island "
-              "loop")
-    for st_, mk_ in bl:
-        parts = []
-        stack = [mk_]
-        while stack:
-            x_ = stack.pop()
-            if isinstance(x_, ast.BinOp) and isinstance(x_.op, ast.BitOr):
-                stack += [x_.left, x_.right]
-            elif isinstance(x_, ast.Call) and norm(x_.func) in (
-                    "np.logical_or", "numpy.logical_or"):
-                stack += list(x_.args)
-            else:
-                parts.append(x_)
-        ctx.check("C01-R11", im_.fi, "blanking mask " + norm(mk_, 80),
-                  any(im_.other_label_term(p_) for p_ in parts),
-                  "the mask %s has no term excluding the pixels of other "
-                  "labelled groups: a disjoint neighbour inside the box is "
-                  "reported twice" % norm(mk_, 80), node=st_)
+    isolation_rule(ctx, prog, "C01-R11")
     # ------------------------------------------------------------ frame rule
     ctx.rule("C01-R10", "fitting works on copies: no in-place write (masking with "
              "NaN, -=, fill) goes through a view of the shared image / "
@@ -648,3 +622,37 @@ def r12_free_shape(ctx, prog):
                       "reported with the beam's shape and a wrong flux" %
                       tuple(dims), node=iff)
     ctx.floor("C01-R12", n, 3, "small-island guards interpreted")
+
+
+def isolation_rule(ctx, prog, rule):
+    """the island cut-out is blanked wherever another island's label is
+    present (shared by C01-R11 and C03-R15)"""
+    ctx.rule(rule, "isolation of the fitted pixels: the cut-out handed "
+             "to the fit is blanked wherever a pixel carries ANOTHER "
+             "island's label (the mask has a `labels != id` / `~own` term) "
+             "-- otherwise a neighbour inside the bounding box is fitted as "
+             "an extra summit of this island and again as its own island, "
+             "and the island row counts pixels that were not detected as "
+             "part of it")
+    from ..islandmodel import IslandModel
+    im_ = IslandModel(prog)
+    bl = im_.blanking_masks()
+    ctx.floor(rule, len(bl), 1, "NaN-blanking statements in the island "
+              "loop")
+    for st_, mk_ in bl:
+        parts = []
+        stack = [mk_]
+        while stack:
+            x_ = stack.pop()
+            if isinstance(x_, ast.BinOp) and isinstance(x_.op, ast.BitOr):
+                stack += [x_.left, x_.right]
+            elif isinstance(x_, ast.Call) and norm(x_.func) in (
+                    "np.logical_or", "numpy.logical_or"):
+                stack += list(x_.args)
+            else:
+                parts.append(x_)
+        ctx.check(rule, im_.fi, "blanking mask " + norm(mk_, 80),
+                  any(im_.other_label_term(p_) for p_ in parts),
+                  "the mask %s has no term excluding the pixels of other "
+                  "labelled groups: a disjoint neighbour inside the box is "
+                  "reported twice" % norm(mk_, 80), node=st_)
